@@ -203,6 +203,8 @@ def mutate(rng, tree, label_space=50):
                     if rng.random() < 0.5 else [[a, term(rng)], [a, term(rng)]]}
         elif kind == "bad_payoff":
             ts = _nodes(t, lambda n: "t" in n)
+            if not ts:      # an earlier mutation of this round removed every terminal (e.g. an emptied root)
+                continue
             rng.choice(ts)["t"] = f2b(rng.choice([float("nan"), float("inf"), float("-inf")]))
         elif kind == "single_action_clash":
             x = L() + 6000
